@@ -59,6 +59,41 @@ func extractPipeline() {
 	}
 	s.boolean("stopOrderFreezeStagesSourceReactor", ok)
 
+	// the first things stopPipeline waits for are the two watchers: does each of their goroutines return once its context is cancelled,
+	// whatever state it is in (the disk watcher may hold the pipeline paused at that moment)?
+	s.str("diskWatcherOnStop", watcherOnStop(fn("internal/pkg/controler/watchers/disk.go", "WatchDiskSpace"), "diskWatcherCtx.Done()"), true)
+	s.str("warcWatcherOnStop", watcherOnStop(fn("internal/pkg/controler/watchers/warc.go", "StartWatchWARCWritingQueue"), "wwqCtx.Done()"), true)
+	// a source blocked in reactor.ReceiveInsert (no token free) is woken by Freeze: the select that takes the token also waits for the
+	// freeze context and for the reactor's context
+	ri := fn("internal/pkg/reactor/reactor.go", "ReceiveInsert")
+	wakes := false
+	if ri != nil {
+		for _, n := range allNodes(ri) {
+			sel, ok := n.(*ast.SelectStmt)
+			if !ok {
+				continue
+			}
+			tok, frz, ctx := false, false, false
+			for _, c := range sel.Body.List {
+				if cc, ok := c.(*ast.CommClause); ok && cc.Comm != nil {
+					t := strings.ReplaceAll(src(cc.Comm), " ", "")
+					switch {
+					case strings.Contains(t, "tokenPool<-"):
+						tok = true
+					case strings.Contains(t, "<-globalReactor.freezeCtx.Done()"):
+						frz = true
+					case strings.Contains(t, "<-globalReactor.ctx.Done()"):
+						ctx = true
+					}
+				}
+			}
+			if tok {
+				wakes = frz && ctx
+			}
+		}
+	}
+	s.boolean("insertWaitWokenByFreeze", wakes)
+
 	// every stage worker hands on each seed it received, exactly once, unless the context is cancelled
 	forward := func(file, recv, outName string) bool {
 		w := strings.ReplaceAll(src(fn(file, recv+".worker")), " ", "")
@@ -145,4 +180,35 @@ func extractPipeline() {
 	s.boolean("finOneExitPerSeed", strings.Count(fw, "continue}") == 2 && strings.Count(fw, "sourceProducedCh<-seed") == 1 &&
 		strings.Count(fw, "reactor.ReceiveFeedback(seed)") == 1 && strings.Count(fw, "reactor.MarkAsFinished(seed)") == 1)
 	s.boolean("finChecksConsistency", strings.Contains(fw, "iferr:=seed.CheckConsistency();err!=nil{panic("))
+}
+
+// watcherOnStop classifies what every `case <-<ctxDone>:` clause of a watcher does: "returns" (its last statement is an unconditional
+// return), "returnsSecondRound" (the shape `if paused && !flag { flag = true } else { return }`: the cancelled context fires again at
+// once and the second round returns), otherwise "mayWait".
+func watcherOnStop(fd *ast.FuncDecl, done string) string {
+	if fd == nil {
+		return "missing"
+	}
+	res := "missing"
+	for _, n := range allNodes(fd) {
+		cc, ok := n.(*ast.CommClause)
+		if !ok || cc.Comm == nil || !strings.Contains(strings.ReplaceAll(src(cc.Comm), " ", ""), "<-"+done) {
+			continue
+		}
+		this := "mayWait"
+		if len(cc.Body) > 0 {
+			if _, ok := cc.Body[len(cc.Body)-1].(*ast.ReturnStmt); ok {
+				this = "returns"
+			} else if len(cc.Body) == 1 {
+				t := strings.ReplaceAll(src(cc.Body[0]), " ", "")
+				if strings.HasPrefix(t, "ifpaused&&!returnAfterResume{") && strings.Contains(t, "returnAfterResume=true}else{return}") {
+					this = "returnsSecondRound"
+				}
+			}
+		}
+		if res == "missing" || this == "mayWait" || (this == "returnsSecondRound" && res == "returns") {
+			res = this
+		}
+	}
+	return res
 }
